@@ -9,21 +9,19 @@ Open Scope string_scope.
 Open Scope list_scope.
 
 (* ---------------------------------------------------------------- the guard, decomposed *)
-Definition key_reasons (k : value) : Z :=
-  Z.lor (if value_eqb (patch k) k then 0 else 1) (if wf_value k then 0 else 2).
+Definition wf_reason (k : value) : Z := if wf_value k then 0 else 2.
 Definition entry_reasons (kd : value * value) : Z :=
-  Z.lor (key_reasons (fst kd))
+  Z.lor (wf_reason (fst kd))
         (match doc_id (snd kd) with
          | Some i => if py_eq (patch (fst kd)) i && negb (value_eqb i (patch (fst kd)))
                      then 4 else 0
          | None => 0
          end).
-Definition op_reasons (o : op) (s : store) : Z :=
+Definition op_reasons (o : op) (r : res value) (s : store) : Z :=
   match o with
   | OInsertOne (VDoc fs) =>
       match assoc "_id" fs with
-      | Some i => Z.lor (key_reasons i)
-                        (if negb (id_modelled i) && negb (is_arr i) then 32 else 0)
+      | Some i => Z.lor (if is_ok r && negb (value_eqb (patch i) i) then 1 else 0) (wf_reason i)
       | None => 0
       end
   | OFind (VDoc [("_id", v)]) None [] 0 0 =>
@@ -35,8 +33,8 @@ Definition op_reasons (o : op) (s : store) : Z :=
   | _ => 0
   end.
 Definition step_reasons (oo : op * obs) : Z :=
-  let '(o, (_, s, _)) := oo in
-  Z.lor (fold_right Z.lor 0 (map entry_reasons s)) (op_reasons o s).
+  let '(o, (r, s, _)) := oo in
+  Z.lor (fold_right Z.lor 0 (map entry_reasons s)) (op_reasons o r s).
 
 Lemma c05_reasons_eq ops os :
   c05_reasons ops os = fold_right Z.lor 0 (map step_reasons (combine ops os)).
@@ -52,23 +50,18 @@ Qed.
 
 Definition key_good (k : value) : Prop := patch k = k /\ wf_value k = true.
 
-Lemma key_reasons_0 k : key_reasons k = 0 -> key_good k.
-Proof.
-  unfold key_reasons. intros H. apply Z.lor_eq_0_iff in H. destruct H as [H1 H2].
-  split.
-  - destruct (value_eqb (patch k) k) eqn:E; [apply value_eqb_eq; exact E|discriminate H1].
-  - destruct (wf_value k); [reflexivity|discriminate H2].
-Qed.
+Lemma wf_reason_0 k : wf_reason k = 0 -> wf_value k = true.
+Proof. unfold wf_reason. destruct (wf_value k); [reflexivity|discriminate]. Qed.
 
 Definition Good (s : store) : Prop :=
   forall kd, In kd s ->
-    key_good (fst kd) /\
+    wf_value (fst kd) = true /\
     (forall i, doc_id (snd kd) = Some i -> py_eq (patch (fst kd)) i = true -> i = patch (fst kd)).
 
 Lemma entry_reasons_good s : fold_right Z.lor 0 (map entry_reasons s) = 0 -> Good s.
 Proof.
   intros H kd Hin. pose proof (fold_lor_0 _ _ H _ Hin) as Hk. unfold entry_reasons in Hk.
-  apply Z.lor_eq_0_iff in Hk. destruct Hk as [H1 H2]. split; [apply key_reasons_0; exact H1|].
+  apply Z.lor_eq_0_iff in Hk. destruct Hk as [H1 H2]. split; [apply wf_reason_0; exact H1|].
   intros i Hi Hp. rewrite Hi, Hp in H2. simpl in H2.
   destruct (value_eqb i (patch (fst kd))) eqn:E; [apply value_eqb_eq; exact E|discriminate H2].
 Qed.
@@ -84,8 +77,9 @@ Definition Strong (s : store) : Prop :=
 
 Lemma strong_of s : InvD s -> Good s -> Strong s.
 Proof.
-  intros [Hk Hok] Hg. split; [exact Hk|]. intros kd Hin.
-  destruct (Hg _ Hin) as [Hkg Hex]. destruct (Hok _ Hin) as [Harr [i [Hi Hrel]]].
+  intros [Hk [Hok Hko]] Hg. split; [exact Hk|]. intros kd Hin.
+  destruct (Hg _ Hin) as [Hwf Hex]. destruct (Hok _ Hin) as [Harr [i [Hi Hrel]]].
+  assert (Hkg : key_good (fst kd)) by (split; [exact (proj1 (Hko _ Hin))|exact Hwf]).
   split; [exact Hkg|]. split; [exact Harr|].
   assert (E : i = patch (fst kd)).
   { destruct Hrel as [k0 [Hk0 Hi0]].
@@ -127,13 +121,23 @@ Qed.
 
 (* ---------------------------------------------------------------- has_id *)
 Lemma has_id_none s i :
-  Strong s -> patch i = i -> store_get i s = None -> has_id s i = false.
+  Strong s -> store_get (patch i) s = None -> has_id s i = false.
 Proof.
-  intros HS Hi Hg. unfold has_id. apply existsb_all_false. intros kd Hin.
-  apply distinct_bson.
+  intros HS Hg. unfold has_id. apply existsb_all_false. intros kd Hin.
+  rewrite <- (patch_idem i). apply distinct_bson.
   - exact (proj1 (proj2 HS _ Hin)).
-  - exact Hi.
+  - apply patch_idem.
   - eapply store_get_none; eassumption.
+Qed.
+
+(* an _id outside the store keys of the model is BSON-equal to no stored key *)
+Lemma has_id_unmodelled s i :
+  keys_ok s -> id_modelled (patch i) = false -> has_id s i = false.
+Proof.
+  intros HK Hm. unfold has_id. apply existsb_all_false. intros kd Hin.
+  destruct (HK _ Hin) as [Hp Hkm]. rewrite Hp.
+  destruct (bson_eq (fst kd) (patch i)) eqn:E; [|reflexivity].
+  rewrite (bson_eq_id_modelled _ _ E (patch_idem i) Hkm) in Hm. discriminate Hm.
 Qed.
 
 Lemma has_id_last s i d : has_id (s ++ [(i, d)]) i = true.
@@ -200,7 +204,7 @@ Lemma insert_step c fs c' r :
   Inv c -> Strong (docs c) ->
   insert_one c (VDoc fs) = (c', r) ->
   match assoc "_id" fs with
-  | Some i => key_good i /\ (id_modelled i = false -> is_arr i = true)
+  | Some i => is_ok r = true -> patch i = i
   | None => True
   end ->
   insert_part (docs c) (docs c') fs r = true.
@@ -210,23 +214,24 @@ Proof.
   pose proof (insert_doc_spec c fs c1 r1 (proj2 HI) E) as Hs. cbv zeta in Hs.
   destruct Hs as [_ Hs]. unfold ins_id in Hs.
   destruct (assoc "_id" fs) as [i|] eqn:Ea; intros Hg.
-  - destruct Hg as [Hkg Harr].
-    destruct Hs as [[Hm [Hd [e [-> _]]]]|[[Hm [[x Hx] [Hd ->]]]|[[Hm [Hn [Hd ->]]]|[Hm [Hn [Hd [e ->]]]]]]];
-      cbn [bind].
+  - destruct Hs as [[Hm [Hd [e [-> _]]]]|[[Hm [[x Hx] [Hd ->]]]|[[Hm [Hn [Hd ->]]]|[Hm [Hn [Hd [e ->]]]]]]];
+      cbn [bind] in *.
     + rewrite (insert_part_err_some _ _ _ _ _ Ea).
-      rewrite (has_id_arr _ _ HS (Harr Hm)). reflexivity.
+      rewrite (has_id_unmodelled _ _ (proj2 (proj2 (proj1 HI))) Hm). reflexivity.
     + rewrite (insert_part_err_some _ _ _ _ _ Ea). rewrite Hd, store_eqb_refl.
       destruct (has_id (docs c) i); reflexivity.
-    + rewrite (insert_part_ok_some _ _ _ _ Ea).
-      rewrite (has_id_none _ _ HS (proj1 Hkg) Hn), value_eqb_refl, Hd, has_id_last. reflexivity.
+    + pose proof (Hg eq_refl) as Hp. rewrite Hp in *.
+      rewrite (insert_part_ok_some _ _ _ _ Ea).
+      rewrite (has_id_none _ i HS) by (rewrite Hp; exact Hn).
+      rewrite value_eqb_refl, Hd, has_id_last. reflexivity.
     + rewrite (insert_part_err_some _ _ _ _ _ Ea).
-      rewrite (has_id_none _ _ HS (proj1 Hkg) Hn). reflexivity.
+      rewrite (has_id_none _ _ HS Hn). reflexivity.
   - destruct Hs as [[Hm _]|[[Hm [[x Hx] [Hd ->]]]|[[Hm [Hn [Hd ->]]]|[Hm [Hn [Hd [e ->]]]]]]];
       cbn [bind].
     + discriminate Hm.
     + apply insert_part_err_none. exact Ea.
     + rewrite (insert_part_ok_none _ _ _ _ Ea).
-      rewrite (has_id_none _ _ HS eq_refl Hn), Hd, has_id_last.
+      rewrite (has_id_none _ (VOid (next_oid c)) HS Hn), Hd, has_id_last.
       rewrite app_length, Nat.add_comm. simpl. rewrite Nat.eqb_refl. reflexivity.
     + apply insert_part_err_none. exact Ea.
 Qed.
@@ -424,8 +429,8 @@ Lemma c05_step_find x f proj sort skip limit r after info :
                   end.
 Proof. dlookup f proj sort skip limit. Qed.
 
-Lemma op_reasons_find f proj sort skip limit s :
-  op_reasons (OFind f proj sort skip limit) s =
+Lemma op_reasons_find f proj sort skip limit r s :
+  op_reasons (OFind f proj sort skip limit) r s =
   match id_lookup (OFind f proj sort skip limit) with
   | Some v => if scalar_id v
                  && existsb (fun kd => py_eq (patch (fst kd)) (patch v)
@@ -443,7 +448,7 @@ Proof.
 Qed.
 
 (* ---------------------------------------------------------------- one step *)
-Lemma op_reasons_ttl_free o s : op_reasons o s = 0 -> ttl_free o = true.
+Lemma op_reasons_ttl_free o r s : op_reasons o r s = 0 -> ttl_free o = true.
 Proof.
   destruct o; try reflexivity. destruct ttl as [t|]; [|reflexivity].
   simpl. destruct (is_null t); [reflexivity|discriminate].
@@ -452,7 +457,7 @@ Qed.
 Lemma c05_step_ok pre5 c o c' r x info :
   Inv c -> Strong (docs c) -> x_store x = docs c ->
   step pre5 c o = (c', r) ->
-  Strong (docs c') -> op_reasons o (docs c') = 0 ->
+  Strong (docs c') -> op_reasons o r (docs c') = 0 ->
   c05_step x o (r, docs c', info) = true.
 Proof.
   intros HI HS Hx Hstep HS' Hop.
@@ -464,10 +469,9 @@ Proof.
     rewrite c05_step_insert, Hinv, Hx. cbn [andb].
     eapply insert_step; [exact HI|exact HS|exact Hstep|].
     cbn [op_reasons] in Hop. destruct (assoc "_id" fs) as [i|]; [|exact I].
-    apply Z.lor_eq_0_iff in Hop. destruct Hop as [H1 H2].
-    split; [apply key_reasons_0; exact H1|].
-    intros Hm. rewrite Hm in H2. cbn [negb andb] in H2.
-    destruct (is_arr i); [reflexivity|discriminate H2].
+    apply Z.lor_eq_0_iff in Hop. destruct Hop as [H1 _].
+    intros Hok. rewrite Hok in H1. cbn [andb] in H1.
+    destruct (value_eqb (patch i) i) eqn:Ev; [apply value_eqb_eq; exact Ev|discriminate H1].
   - (* update *)
     apply update_op_spec in Hstep; [|exact (proj2 HI)].
     change (c05_step x (OUpdate f u multi upsert) (r, docs c', info))
@@ -557,7 +561,7 @@ Lemma state_invariant pre5 ops :
      exists i k0, doc_id d = Some i /\ (k0 = k \/ py_eq k k0 = true) /\
                   (i = patch k0 \/ py_eq (patch k0) i = true)).
 Proof.
-  intros Ht s. destruct (final_inv pre5 ops empty_coll Ht Inv_empty) as [[Hk Hok] _].
+  intros Ht s. destruct (final_inv pre5 ops empty_coll Ht Inv_empty) as [[Hk [Hok _]] _].
   fold s in Hk, Hok. split.
   - clear Hok. intros l1. revert Hk. generalize s. clear s.
     induction l1 as [|x l1 IH]; intros s Hk kd1 l2 kd2 l3 ->.
@@ -565,4 +569,14 @@ Proof.
     + simpl in Hk. eapply IH; [exact (proj2 Hk)|reflexivity].
   - intros k d Hin. destruct (Hok _ Hin) as [Ha [i [Hi [k0 [H1 H2]]]]].
     split; [exact Ha|]. exists i, k0. repeat split; assumption.
+Qed.
+
+Lemma keys_normalised pre5 ops :
+  forallb ttl_free ops = true ->
+  forall k d, In (k, d) (docs (final pre5 empty_coll ops)) ->
+    patch k = k /\ id_modelled k = true.
+Proof.
+  intros Ht k d Hin.
+  destruct (final_inv pre5 ops empty_coll Ht Inv_empty) as [[_ [_ Hko]] _].
+  exact (Hko _ Hin).
 Qed.
